@@ -1,9 +1,13 @@
 package main
 
 import (
+	"bytes"
 	"context"
 	"encoding/json"
 	"fmt"
+	"os"
+	"os/exec"
+	"strings"
 	"sync"
 	"time"
 
@@ -236,6 +240,11 @@ func runC02(cs c02Case) (ev map[string]any, herr error) {
 		cfg.ClientSessionCache = cache
 		ev["warm"] = werr
 	}
+	if cs.Cfg.QUIC && !inChild {
+		// UQUICConn.Start runs the handshake in a goroutine of the library: a panic there cannot be recovered by
+		// the caller and kills the process. QUIC cases therefore run in a child process of their own.
+		return runInChild(cs, ev), nil
+	}
 	if cs.Cfg.QUIC {
 		ev["stage"] = "quic"
 		uq := tls.UQUICClient(&tls.QUICConfig{TLSConfig: cfg}, id)
@@ -316,6 +325,38 @@ func runC02(cs c02Case) (ev map[string]any, herr error) {
 	return ev, nil
 }
 
+var inChild bool
+
+func runInChild(cs c02Case, ev map[string]any) map[string]any {
+	ev["stage"] = "quic"
+	dir, err := os.MkdirTemp("", "wirea-child-")
+	if err != nil {
+		panic(err)
+	}
+	defer os.RemoveAll(dir)
+	in, _ := json.Marshal(map[string]any{"cases": []c02Case{cs}})
+	if err := os.WriteFile(dir+"/in.json", in, 0o600); err != nil {
+		panic(err)
+	}
+	cmd := exec.Command(os.Args[0], "c02child", dir+"/in.json", dir+"/out.ndjson")
+	var stderr bytes.Buffer
+	cmd.Stderr = &stderr
+	runErr := cmd.Run()
+	if out, rerr := os.ReadFile(dir + "/out.ndjson"); runErr == nil && rerr == nil {
+		var got map[string]any
+		if json.Unmarshal(bytes.TrimSpace(out), &got) == nil && got["ev"] == "Hello" {
+			return got
+		}
+	}
+	msg := strings.TrimSpace(stderr.String())
+	if i := strings.Index(msg, "\n"); i > 0 {
+		msg = msg[:i]
+	}
+	ev["started"] = true
+	ev["panic"] = "process died: " + msg
+	return ev
+}
+
 // c02: {"cases":[{sc, src, cfg}]} -> one "Hello" event per case, in order.
 func init() {
 	hlib.Register("c02", func(in []byte, out *hlib.Out) error {
@@ -331,6 +372,21 @@ func init() {
 				return fmt.Errorf("case %d: %w", req.Cases[i].Sc, errs[i])
 			}
 			out.Emit(e)
+		}
+		return nil
+	})
+	hlib.Register("c02child", func(in []byte, out *hlib.Out) error {
+		inChild = true
+		var req struct{ Cases []c02Case }
+		if err := json.Unmarshal(in, &req); err != nil {
+			return err
+		}
+		for _, c := range req.Cases {
+			ev, err := runC02(c)
+			if err != nil {
+				return err
+			}
+			out.Emit(ev)
 		}
 		return nil
 	})
